@@ -4,6 +4,7 @@ Exit codes of ./check:  0 property held on everything explored (KNOWN-FINDING li
                         1 violation shown on the real code (VIOLATION line printed)
                         2 infrastructure problem (build failure, TLC error, timeout, unreproduced lead)
 """
+import threading
 import json, os, re, shutil, subprocess, sys, tempfile, time, glob, hashlib
 
 VERIF = os.path.dirname(os.path.dirname(os.path.abspath(__file__)))
@@ -100,13 +101,19 @@ _RE_INV = re.compile(r"Invariant (\S+) is violated")
 _RE_PROP = re.compile(r"(Temporal properties were violated|Action property (\S+) is violated)")
 
 
+_STAGE_LOCK = threading.Lock()
+
+
 def stage_spec(work):
     d = work.path("spec")
-    if not os.path.isdir(d):
-        os.makedirs(d)
-        for sub in ("", "mc", "trace"):
-            for f in glob.glob(os.path.join(SPEC, sub, "*.tla")) + glob.glob(os.path.join(SPEC, sub, "*.cfg")):
-                shutil.copy(f, d)
+    with _STAGE_LOCK:                      # several TLC runs of one check start concurrently
+        if not os.path.isdir(d):
+            tmp = d + ".staging"
+            os.makedirs(tmp, exist_ok=True)
+            for sub in ("", "mc", "trace"):
+                for f in glob.glob(os.path.join(SPEC, sub, "*.tla")) + glob.glob(os.path.join(SPEC, sub, "*.cfg")):
+                    shutil.copy(f, tmp)
+            os.rename(tmp, d)
     return d
 
 
